@@ -300,6 +300,10 @@ type FuncContract struct {
 	File     string
 	Line     int
 	MayAlias [][2]string
+	QFOnly   bool     // qfonly: quantified hypotheses are never emitted as quantifiers, only as instances (keeps the queries quantifier free)
+	Hints    []Let    // hint v = expr: extra instantiation term for hypotheses quantifying a variable named v
+	GuardVar string  // fileguard a: expr  -- every physical file write may only touch offsets a satisfying expr (evaluated in the entry state)
+	Guard    *Clause
 }
 
 type Split struct {
@@ -379,7 +383,7 @@ func (cs *ContractSet) parseFile(path, pkg string) error {
 	var items []item
 	keywords := map[string]bool{"func": true, "lemma": true, "requires": true, "ensures": true, "modifies": true,
 		"loop": true, "let": true, "panics": true, "replay": true, "import": true, "inline": true, "trusted": true,
-		"split": true, "mayalias": true, "assume": true, "define": true}
+		"split": true, "mayalias": true, "assume": true, "define": true, "fileguard": true, "hint": true, "qfonly": true}
 	for i, ln := range strings.Split(string(data), "\n") {
 		t := strings.TrimSpace(ln)
 		if !strings.HasPrefix(t, "//@") {
@@ -618,6 +622,28 @@ func (cs *ContractSet) parseFile(path, pkg string) error {
 				cur.Replay = append(cur.Replay, strings.TrimPrefix(strings.TrimSpace(it.text), ":"))
 			case "import":
 				cur.Imports = append(cur.Imports, strings.Fields(it.text)...)
+			case "qfonly":
+				cur.QFOnly = true
+			case "hint":
+				k := strings.Index(it.text, "=")
+				if k < 0 {
+					return fmt.Errorf("%s:%d: hint v = expr", path, it.line)
+				}
+				e, err := parseExpr(strings.TrimSpace(it.text[k+1:]))
+				if err != nil {
+					return fmt.Errorf("%s:%d: %v", path, it.line, err)
+				}
+				cur.Hints = append(cur.Hints, Let{strings.TrimSpace(it.text[:k]), e, it.text})
+			case "fileguard":
+				k := strings.Index(it.text, ":")
+				if k < 0 {
+					return fmt.Errorf("%s:%d: fileguard a: expr", path, it.line)
+				}
+				c, err := mkClause(strings.TrimSpace(it.text[k+1:]), it.line)
+				if err != nil {
+					return err
+				}
+				cur.GuardVar, cur.Guard = strings.TrimSpace(it.text[:k]), &c
 			case "inline":
 				cur.Inline = true
 			case "trusted":
